@@ -260,7 +260,7 @@ impl Property for P {
     }
     fn rule(&self) -> String {
         "Generated: (suite of 48, mode, session) with histories interleaving exports on either side (exporter contexts up to 300 bytes and, rarely, 65535..70000 bytes; L from boundaries {0,1,Nh+-1,255Nh+-1,65535+-1,100000} and uniform) with seals, opens, rejected deliveries, exhaustion of both contexts at 2^64-1 (hook), and panicking seal/open attempts on export-only suites. \
-         Swept: 48x4 cells; every L in 0..=400 and within 40 of 255*Nh and of 2^16 for each KDF (thorough: every L in 0..=66000 per KDF). \
+         Swept: 48x4 cells; every L in 0..=400 and within 40 of 255*Nh and of 2^16 for each KDF (thorough: every L in 0..=66000 per KDF); every exporter-context length 0..=1100 (thorough 0..=4200) per KDF with a one-block and a multi-block L, alternating sides. \
          Oracle: reference LabeledExpand(exporter_secret_ref, \"sec\", ctx, L); Ok iff L<=255*Nh else KdfOutputTooLong; repeatable; sender==receiver. \
          Non-trivial: an export after traffic on the same context, or L within 2 of a boundary, or an L-range sweep."
             .into()
@@ -332,7 +332,31 @@ impl Property for P {
                 }
             }
         }
-        vec![("suite_x_mode_cells".into(), cells), ("export_length_ranges".into(), ranges)]
+        // every exporter-context length 0..=1100 (quick) / 0..=4200 (thorough), each with a one-block
+        // and a multi-block output length, alternating sides: an implementation that assembles the
+        // labeled info in a fixed buffer goes wrong at lengths only a dense sweep contains
+        let mut ctxlens = Vec::new();
+        let top = match tier {
+            Tier::Quick => 1100usize,
+            Tier::Thorough => 4200,
+        };
+        for (ki, kdf) in KdfId::ALL.into_iter().enumerate() {
+            let s = Suite { kem: r::KemId::X25519, kdf, aead: if ki == 1 { r::AeadId::Export } else { r::AeadId::ChaCha } };
+            let sess = gen::cell_session(s, ki as u8, 13);
+            let nh = kdf.nh();
+            let mut from = 0usize;
+            while from <= top {
+                let to = (from + 99).min(top);
+                let mut ops = Vec::new();
+                for cl in from..=to {
+                    ops.push(Op::Export { side: (cl % 2) as u8, ctx: Bytes(gen::fill(cl, 5, 31 + cl as u64)), len: 16 });
+                    ops.push(Op::Export { side: ((cl + 1) % 2) as u8, ctx: Bytes(gen::fill(cl, 5, 31 + cl as u64)), len: nh + 1 + cl % 40 });
+                }
+                ctxlens.push(Case::History { sess: sess.clone(), ops });
+                from = to + 1;
+            }
+        }
+        vec![("suite_x_mode_cells".into(), cells), ("export_length_ranges".into(), ranges), ("every_exporter_context_length".into(), ctxlens)]
     }
     fn check(&self, case: &Case, obs: &mut Obs) -> Verdict {
         match case {
